@@ -498,6 +498,15 @@ def mutants(prog, rnd, per_op):
         for how in ("cb-not-event", "cb-param-type", "cb-arity", "cb-ret", "cb-unknown", "trigger-unknown", "trigger-not-imported", "arg-type", "arg-arity",
                     "cb-param-name", "self"):
             emit(trig_mut(how), "trigger-" + how)
+    # the parameters of a function in another order (its body and its callers keep using the names / positions)
+    for fname in [f for f in fnames if len(prog["fns"][f]["ps"]) >= 2][:per_op]:
+        def m(q, fname=fname):
+            f = q["fns"][fname]
+            if f["pts"][0] == f["pts"][1]:
+                return False
+            f["ps"][0], f["ps"][1] = f["ps"][1], f["ps"][0]
+            f["pts"][0], f["pts"][1] = f["pts"][1], f["pts"][0]
+        emit(m, "params-swapped")
     # a global named like a function of the module
     for fname in [f for f in fnames if f != "main"][:2]:
         def m(q, fname=fname):
@@ -613,6 +622,11 @@ def typing_programs():
     add("fn_value_assigned", dict(two, main=Fn([], Block([Let("f", V("inc")), Print(Call("f", I(1))), Expr(Asg(V("f"), V("dec"))), Print(Call("f", I(1))),
                                                           Let("l", List(V("inc"))), Expr(Asg(Idx(V("l"), I(0)), V("dec"))), Print(CallV(Idx(V("l"), I(0)), I(1))),
                                                           Let("o", Obj(g=V("inc"))), Expr(Asg(Mem(V("o"), "g"), V("dec"))), Print(CallV(Mem(V("o"), "g"), I(9)))]))))
+    # function types are positional: the same parameters in another order make another type
+    add("fn_type_parameter_order",
+        {"g": Fn(["a", "b"], Block([], Bin("+", V("a"), MCall(V("b"), "len"))), "int", ["int", "str"]),
+         "ap": Fn(["f"], Block([], CallV(V("f"), I(1), S("xyz"))), "int", ["fn(a: int, b: str) -> int"]),
+         "main": Fn([], Block([Print(Call("ap", V("g"))), Let("h", V("g"), "fn(a: int, b: str) -> int"), Print(CallV(V("h"), I(2), S("q")))]))})
     add("fn_values", {"apply": Fn(["f", "x"], Block([], CallV(V("f"), V("x"))), "int", ["fn(a: int) -> int", "int"]),
                       "twice": Fn(["a"], Block([], Bin("*", V("a"), I(2))), "int"),
                       "mk": Fn([], Block([], FnLit(["a"], Block([], Bin("+", V("a"), I(1))), "int")), "fn(a: int) -> int"),
